@@ -67,7 +67,7 @@ def run(ctx) -> None:
     ctx.rule("R05.7", "tee: a child with buffered items yields them without waiting for the lock (R09.2)")
     c09.lock_free_service(ctx, "R05.7")
     ctx.floor("tools", 20)
-    ctx.floor("pull_sites", 25)
+    ctx.floor("pull_sites", 15)
     ctx.floor("short_circuit_cells", 6)
 
 
@@ -273,12 +273,17 @@ class _TruthOps:
     def next(self, node, env):
         return "ELEM"
 
+    def call(self, func, args, kwargs, node, env):
+        if func.split(".")[-1] == "bool" and args == ["ELEM"]:
+            return self.truthy
+        return UNKNOWN
+
 
 def r05_4(ctx) -> None:
     spec = {"builtins.all": {False: ("return", False), True: ("continue", None), "exhausted": True},
             "builtins.any": {True: ("return", True), False: ("continue", None), "exhausted": False}}
     for short, table in spec.items():
-        u = ctx.unit(short)
+        u = ctx.inlined(ctx.unit(short))  # all/any may share one search loop in a private helper
         cfg = cfg_of(u)
         loops = [n for n in cfg.nodes if n.kind == "pull" and not n.tag]
         ctx.check(len(loops) == 1, "R05.4", u, short, "one loop over the source")
